@@ -156,6 +156,31 @@ Theorem C15_frontends_agree_macro :
                          (builder_settings V S o).
 Proof. exact frontends_agree_macro. Qed.
 
+(* The macro's crates table reaches TypeSpaceSettings.crates entry for entry: every
+   entry of the table -- whatever its version, `!` (Never) included -- is one
+   with_crate call; the table is neither filtered nor extended.  (A crate listed as
+   Never always has its types generated; an unlisted crate is left to the
+   unknown_crates policy: dropping a `!` entry is observable under Allow.) *)
+Theorem C15_macro_crates_complete :
+  forall (V S : Type) (vec_order : list timpl -> list timpl) (mi : macro_input V S),
+    let table := s_crates V S (macro_settings_of V S vec_order mi) in
+    table = rev (map (macro_crate_binding V) (mi_crates V S mi)) /\
+    length table = length (mi_crates V S mi) /\
+    (forall e, In e (mi_crates V S mi) -> In (macro_crate_binding V e) table) /\
+    (forall b, In b table -> exists e, In e (mi_crates V S mi) /\ b = macro_crate_binding V e) /\
+    (NoDup (map (fun e => fst (macro_crate_binding V e)) (mi_crates V S mi)) ->
+     forall e, In e (mi_crates V S mi) ->
+               lookup (fst (macro_crate_binding V e)) table = Some (snd (macro_crate_binding V e))).
+Proof. exact macro_crates_complete. Qed.
+
+Theorem C15_macro_never_recorded :
+  forall (V S : Type) (vec_order : list timpl -> list timpl) (mi : macro_input V S) name,
+    NoDup (map (fun e => fst (macro_crate_binding V e)) (mi_crates V S mi)) ->
+    In (name, (None, Never)) (mi_crates V S mi) ->
+    lookup name (s_crates V S (macro_settings_of V S vec_order mi))
+    = Some {| ce_version := Never; ce_rename := None |}.
+Proof. exact macro_never_recorded. Qed.
+
 (* without "distinct original names": `"a" = "x@*", "b" = "x@!"` — one iteration
    order agrees with the builder, the other does not (finding C15-3) *)
 Theorem C15_frontends_agree_macro_order_dependent_refuted :
